@@ -1,6 +1,7 @@
 SPECIFICATION Spec
 CONSTANTS SIntW = 8
           WordW = 8
+          FullA = TRUE
           FullB = TRUE
 INVARIANT AllOk
 CHECK_DEADLOCK FALSE
